@@ -276,6 +276,14 @@ def calls_for(rng, fut, n_random=30, full=False):
         t = rng.randrange(ntr)
         lo, hi = sorted(rng.sample(range(0, n_s + 1), 2))
         out.append(('get_trace', (t, lo, hi)))
+    # windows whose ends fall on unit / block boundaries (and one sample either side)
+    b2 = sp.bs[2]
+    ends = sorted({e for e in (4, 8, b2, 2 * b2, 3 * b2, b2 - 1, b2 + 1, b2 - 4, b2 + 4, n_s - 1, n_s, 4 * (n_s // 4), b2 * (n_s // b2)) if 0 < e <= n_s})
+    starts = sorted({st for st in (0, 1, 3, 4, b2 - 1, b2, b2 + 1, 4 * ((n_s - 1) // 4)) if 0 <= st < n_s})
+    for e in ends:
+        for st in starts:
+            if st < e and (rng.random() < 0.5 or st == 0):
+                out.append(('get_trace', (rng.randrange(ntr), st, e)))
     for w in ((0, n_s + 1), (n_s, n_s + 1), (3, 3), (5, 2), (-1, 3), (0, sp.shape_pad[2]), (None, 3), (2, None)):
         out.append(('get_trace', (rng.randrange(ntr), w[0], w[1])))
     cds = sorted({-n_xl, -n_xl + 1, -1, 0, 1, n_il - 1, n_il, (n_il - n_xl), (n_il - n_xl) + 1, (n_il - n_xl) - 1})
